@@ -9,11 +9,11 @@ CLAIMED = {
          "CFG dominance / fence / guard rules + enumerated index tables over work_stealing_deque.c and the scheduler"),
  "C03": ("lock/trylock/unlock decision tables over the atomic counter's old value, memory orders, waker loop (yield not spin, exit only after count wakes, node hand-back), single consumer and counter-writer tables",
          "enumerated forced-branch tables over atomic results + CFG dominance / who-may-call rules on fiber_mutex.c and the shared waker"),
- "C04": ("detach_state exchange-only writer table; per-function action tables over the exchanged old value (park / take+READY+schedule / error); result store/copy/read order rules; no touch of the joined fiber after waking it; clear_or_wait loop shape",
-         "enumerated forced-branch tables over atomic exchange results + CFG dominance / no-touch rules on fiber.c"),
+ "C04": ("detach_state compare-exchange-only writer table; transition table (completed NONE->WFJ; join NONE->WTJ, WFJ->WTJ; tryjoin WFJ->WTJ; detach NONE->DET, WFJ->DET) checked per function over every sequence of states its accesses can observe (legal transition only; park / take+READY+schedule / error exactly as specified); result store/copy/read order rules; no touch of the joined fiber after waking it; clear_or_wait loop shape",
+         "enumerated forced-branch tables over compare-exchange outcomes and observed-state sequences + CFG dominance / no-touch rules on fiber.c"),
  "C05": ("register-before-enqueue order, mutex released only through the deferred slot, re-lock on every return; signal/broadcast lock pairing, claim tables and wake counts; single-consumer and counter-writer tables",
          "CFG dominance / lock-pair rules + enumerated claim tables on fiber_cond.c and the enqueue helper"),
- "C06": ("wait/trywait/post decision tables over the counter value and wake result, increment-after-wake order, no exit without wake-or-increment, counter-writer table, waker count semantics",
+ "C06": ("wait/trywait/post decision tables over the counter value and wake result, no increment reachable at INT_MAX (also on the retry path of a failed compare-exchange), increment-after-wake order, no exit without wake-or-increment, counter-writer table, waker count semantics",
          "enumerated forced-branch tables over atomic results + CFG dominance rules on fiber_semaphore.c"),
  "C07": ("transition rows of all six lock/unlock/try functions interpreted over enumerated legal snapshots of the packed state word; policy-independent row conditions (exclusion, no stranded waiter, count<->action agreement, ownership transfer in the same CAS, CAS on the whole snapshot, re-snapshot on failure, try variants never park)",
          "word-level interpretation of locals/bit-fields over an enumerated snapshot domain (TABLE) + who-may-write rule on fiber_rwlock.c"),
@@ -21,13 +21,13 @@ CLAIMED = {
          "inter-procedural forced-branch reachability over enumerated descriptor classes and scenarios (BOUNDS / TABLE / SIBLING rules) on fiber_io.c and fiber_event_native.c"),
  "C09": ("sleep registration under the sleep lock with deferred unlock, poller lock/unlink/no-touch rules, strict expiry comparison table, deadline arithmetic evaluated with C integer widths over boundary durations, unit conversion and routing tables of sleep/usleep/nanosleep",
          "CFG lock-pair / dominance rules, reaching-definition NOTOUCH dataflow, enumerated arithmetic tables with C widths"),
- "C11": ("publish-before-raise in every send, re-check after every wait in every receive, signal wait/raise CAS and exchange tables, bounded-channel claim and consume tables, multi-channel capacity tables with re-test after wait and wake-before-unlock",
+ "C11": ("publish-before-raise in every send, re-check after every wait in every receive, signal wait/raise CAS and exchange tables, bounded-channel claim and consume tables, multi-channel capacity tables (across the counter wrap when the counters are narrower than 64 bits) with re-test after wait and wake-before-unlock, senders and receivers parked on different lists with each operation waking the other kind",
          "CFG dominance / must-pass-through rules + enumerated forced-branch tables on fiber_channel.h, fiber_multi_channel.h, fiber_signal.h"),
  "C12": ("arrival table over (count, arrival number): serial path, wake count, return values; counter-writer table; round-separation certificate with an enumerated list-selection table",
          "enumerated forced-branch tables + certificate recognition on fiber_barrier.c and the shared waker"),
  "C13": ("hazard-pointer typestate (loaded -> published -> re-validated -> dereferenced) at the three publication sites of the FIFO, push terminate/CAS/link order, pop read/CAS/retire order and guards, guarded empty report, head/tail writer table",
          "typestate rule over the CFG (publish + validating-edge must-pass-through), dominance / guard / memory-order rules on mpmc_fifo.h"),
- "C14": ("full fence after the slot publication, typestate at every publication site, scan coverage (record walk + slot loop), sort-before-search with comparator and binary-search tables incl. high addresses, reclaim decision table, retire threshold test, threshold-before-publication order, plist capacity table",
+ "C14": ("full fence after the slot publication, typestate at every publication site, scan coverage (record walk + slot loop), snapshot private to one scan invocation (not re-read from / left reachable through the record across reclamation callbacks), full fence before the slots are read, sort-before-search with comparator and binary-search tables incl. high addresses, reclaim decision table, retire threshold test, threshold-before-publication order, plist capacity table",
          "fence / dominance rules, typestate, interpreted search and comparator tables, enumerated decision tables on hazard_pointer.{h,c}"),
  "C15": ("terminate-swap-link publication order and memory orders of the MPSC/SPSC producers, guarded advance-copy-return shape of the consumers, head-writer tables, relaxed-MPSC index table and interpreted empty-pass table",
          "CFG dominance / memory-order rules, resolved access-path equality, enumerated index and loop tables on mpsc_fifo.h, spsc_fifo.h, mpsc_relaxed_fifo.h"),
@@ -37,7 +37,7 @@ CLAIMED = {
          "enumerated forced-branch tables + CFG dominance/guard rules on work_queue.c"),
  "C18": ("ticket-lock tables (wait-loop exit, ticket+1), memory orders, trylock word construction interpreted over snapshots incl. wrap-around, record layout of the two halves, writers table",
          "enumerated tables + word-level interpretation + record-layout facts on fiber_spinlock.c"),
- "C19": ("abstract interpretation of the x86-64 switch template over a symbolic stack (push/pop symmetry and slots, resume-address displacement, skip, saved rsp, operand binding, clobbers), fresh-context layout read as a store sequence and compared with the template, stack allocate/release pairing and who-may-call rules per strategy, ucontext operand order",
+ "C19": ("abstract interpretation of the x86-64 switch template over a symbolic stack (push/pop symmetry and slots, MXCSR / x87 control word saved and restored (known finding F1), resume-address displacement, skip, saved rsp, operand binding, clobbers), fresh-context layout read as a store sequence and compared with the template, stack allocate/release pairing and who-may-call rules per strategy, ucontext operand order",
          "inline-assembly abstract interpretation + store-sequence analysis + who-may-call rules on fiber_context.c (thorough: malloc / mmap / ucontext configurations)"),
  "C20": ("cmpxchg16b operand/constraint table, union layouts, per-site interpreted snapshot tables (expected = whole snapshot, installed = counter+1 and the specified pointer, fresh loads after failure), load order/barrier, link-inside-loop and claim-behind-CAS rules, multi-signal head-state rows, flushable-stack rules",
          "inline-asm operand check, record-layout facts, word-level interpretation over enumerated snapshots, CFG dominance/guard rules on the double-word-CAS headers"),
